@@ -430,6 +430,22 @@ func runB(l *live, pre string, ops []string) (string, error) {
 			}
 			srcs[c] = sl
 			continue
+		case "G":
+			// only the status question GetApplySnapStatus for the snapshot at source entry k (what the sender polls)
+			c := int(atoiU(f[1]))
+			k := int(atoiU(f[2]))
+			if c > maxc {
+				maxc = c
+			}
+			e := srcs[c][k-1]
+			res = "ok"
+			if !restarted {
+				g, err := l.ask(fmt.Sprintf("G %s %d %d %d", pre, c, e.t, e.i))
+				if err != nil {
+					return "", err
+				}
+				fourth = g
+			}
 		case "T", "P", "K":
 			c := int(atoiU(f[1]))
 			k := int(atoiU(f[2]))
@@ -564,17 +580,40 @@ func genRpcSchedule(r interface {
 	// volatile and what survives a crash depends on where the node's own snapshots fell, so no snapshot request is
 	// issued after a restart (the replay of the committed requests after the crash is still exercised)
 	snapK, snapFiles, snapDone := 0, true, false
+	askK := 0
 	if class == "snap" {
 		k = 1
 		src = src[:2]
 		cur = cur[:2]
 		snapK = 1 + r.Pick(len(src[1]))
 		snapFiles = !r.Chance(0.3)
-		var es []string
-		for _, e := range src[1] {
-			es = append(es, fmt.Sprintf("%d.%d.%d.%d", e.t, e.i, e.ts, e.p))
+		// another, LATER snapshot of the same source, preferably of the same raft term, that is only ASKED about
+		// (the sender's status poll for a snapshot it has announced but whose announcement got lost)
+		for try := 0; try < 30; try++ {
+			a, b := 1+r.Pick(len(src[1])), 1+r.Pick(len(src[1]))
+			if a < b && (askK == 0 || src[1][a-1].t == src[1][b-1].t) {
+				snapK, askK = a, b
+				if src[1][a-1].t == src[1][b-1].t {
+					break
+				}
+			}
 		}
-		ops = append(ops, "W:1:"+strings.Join(es, ","))
+		var es0 []string
+		for _, e := range src[1] {
+			es0 = append(es0, fmt.Sprintf("%d.%d.%d.%d", e.t, e.i, e.ts, e.p))
+		}
+		ops = append(ops, "W:1:"+strings.Join(es0, ","))
+		if r.Chance(0.85) {
+			// the hand-over right away, then the question about the later snapshot
+			fl0 := "-"
+			if !snapFiles {
+				fl0 = "x"
+			}
+			ops = append(ops, fmt.Sprintf("T:1:%d", snapK), fmt.Sprintf("P:1:%d:%s", snapK, fl0))
+			if askK > 0 {
+				ops = append(ops, fmt.Sprintf("G:1:%d", askK))
+			}
+		}
 	}
 	for s := 0; s < steps; s++ {
 		c := 1 + r.Pick(k)
@@ -587,6 +626,9 @@ func genRpcSchedule(r interface {
 			case y < 5: // the hand-over
 				ops = append(ops, fmt.Sprintf("T:1:%d", snapK), fmt.Sprintf("P:1:%d:%s", snapK, fl))
 				snapDone = true
+				if askK > 0 {
+					ops = append(ops, fmt.Sprintf("G:1:%d", askK))
+				}
 			case y < 7:
 				ops = append(ops, fmt.Sprintf("T:1:%d", snapK))
 			default:
